@@ -182,7 +182,8 @@ fn inline_type<'a>(input: &mut &'a [u8]) -> ModalResult<Type<'a>, InputError<&'a
     // Look ahead to see if this contains a colon (indicating struct)
     if let Some(pos) = input.iter().position(|&b| b == b')') {
         let content = &input[1..pos]; // Skip opening paren
-        if content.contains(&b':') {
+        // `()` is the empty object (an enum needs at least one variant).
+        if content.contains(&b':') || content.iter().all(|b| b.is_ascii_whitespace()) {
             struct_type(input)
         } else {
             enum_type(input)
